@@ -1,10 +1,12 @@
 import Gomacro.Drv.C19
+import Gomacro.Drv.C17
 /-! JSON-lines driver: one request object per line in, one reply per line out.
 Unknown ops are `bad-op`, never defaulted.  Core-only imports (links as an executable). -/
 open Lean Gomacro.Drv
 
 def handlers : List (String × Handler) := [
-  ("c19.write", c19Write)
+  ("c19.write", c19Write),
+  ("c17.root", c17Root)
 ]
 
 def handleLine (line : String) : String :=
